@@ -14,6 +14,7 @@ typedef struct error_context_s {
     int save_num_objects_this_thread;
     int save_illegal_sentence_action;
     char *save_last_verb;
+    int save_error_state;             /* limit flags that were pending when this context was saved */
     int save_in_mudlib_error_handler; /* a catch evaluated by the master's error_handler() must not end "we are in the handler" */
 } error_context_t;
 
